@@ -14,6 +14,8 @@ def run_job(mod, harness, params, opts=None, engine=None):
     eng = engine or E.Engine(mod, max_steps=opts.get("max_steps", 3_000_000),
                              solver_timeout_ms=opts.get("solver_timeout_ms", 120000))
     eng.reset_stats()
+    if "small_index_fork" in opts:
+        eng.small_index_fork = opts["small_index_fork"]
     if opts.get("concrete") is not None:
         eng.concrete_syms = list(opts["concrete"])
     else:
@@ -43,6 +45,8 @@ def main():
         k, v = a.split("=")
         if k == "concrete":
             opts["concrete"] = [int(x, 0) for x in v.split(",") if x]
+        elif k == "small_index_fork":
+            opts[k] = int(v)
         elif k in ("path_budget", "max_steps"):
             opts[k] = int(v)
         elif k == "time_budget":
